@@ -507,6 +507,7 @@ impl Runner {
                 }
                 let k = self.keys[*q];
                 let kind = self.db.env.prog.nodes[*q].0;
+                self.arm_injection();
                 let res = std::panic::catch_unwind(std::panic::AssertUnwindSafe(|| salsa::attach(&self.db, || {
                     let v: Vec<u32> = match kind {
                         Kind::Plain => plain::accumulated::<Acc>(&self.db, k).into_iter().map(|a| a.0).collect(),
@@ -516,6 +517,7 @@ impl Runner {
                     };
                     format!("acc={}", if v.is_empty() { "-".to_string() } else { v.iter().map(|x| x.to_string()).collect::<Vec<_>>().join(",") })
                 })));
+                self.disarm_injection();
                 match res {
                     Ok(s) => s,
                     Err(p) => format!("panic:{}", panic_class(&*p)),
@@ -782,11 +784,25 @@ fn oracle_case(case: &Case, obs: &[&str], st: &mut OracleStats, case_no: usize, 
                 } else {
                     let want = fmt_rv(&Ref::new(env).node(*q));
                     if main != want {
-                        fail(st, i, format!("key=value got `{}` want `{}`", main, want));
+                        if main.starts_with("panic:") {
+                            fail(st, i, format!("key=unexpected-panic-{} got `{}` want `{}`", panic_slug(main), main, want));
+                        } else {
+                            fail(st, i, format!("key=value got `{}` want `{}`", main, want));
+                        }
                     }
                 }
             }
             Op::Acc(q) => {
+                if injected {
+                    injected = false;
+                    if main.starts_with("panic:") {
+                        if main != "panic:user" && !main.starts_with("panic:cancelled") {
+                            fail(st, i, format!("key=inject-class injected user panic surfaced as `{}`", main));
+                        }
+                        *st.hist.entry("injected-panic-hit".into()).or_default() += 1;
+                        continue;
+                    }
+                }
                 let env = Env { prog: &case.prog, inputs: &inputs, cells: &cells };
                 let v = Ref::new(env).accumulated(*q);
                 let want = format!("acc={}", if v.is_empty() { "-".to_string() } else { v.iter().map(|x| x.to_string()).collect::<Vec<_>>().join(",") });
@@ -794,7 +810,11 @@ fn oracle_case(case: &Case, obs: &[&str], st: &mut OracleStats, case_no: usize, 
                     *st.hist.entry("acc-nonempty".into()).or_default() += 1;
                 }
                 if main != want {
-                    fail(st, i, format!("key=accumulated got `{}` want `{}`", main, want));
+                    if main.starts_with("panic:") {
+                        fail(st, i, format!("key=unexpected-panic-{} got `{}` want `{}`", panic_slug(main), main, want));
+                    } else {
+                        fail(st, i, format!("key=accumulated got `{}` want `{}`", main, want));
+                    }
                 }
             }
         }
@@ -811,11 +831,26 @@ fn main() {
     std::panic::set_hook(Box::new(|_| {}));
     match mode.as_str() {
         "gen" => {
-            let p = Profile::parse(args.get("--profile").unwrap_or("core")).expect("profile");
             let mut r = Rng::new(args.num("--seed", 1));
             let f = std::fs::File::create(args.get("--out").expect("--out")).unwrap();
             let mut w = std::io::BufWriter::new(f);
             let mut seen = std::collections::HashSet::new();
+            if args.get("--profile") == Some("inject") {
+                // `--cases` counts base cases; every base case expands to all injection points
+                let mut total = 0;
+                for _ in 0..args.num("--cases", 10) {
+                    for c in gen_inject_cases(&mut r, args.num("--kmax", 6) as u32) {
+                        seen.insert(case_hash(&c));
+                        total += 1;
+                        for l in c.to_lines() {
+                            writeln!(w, "{}", l).unwrap();
+                        }
+                    }
+                }
+                println!("GEN cases={} distinct={}", total, seen.len());
+                return;
+            }
+            let p = Profile::parse(args.get("--profile").unwrap_or("core")).expect("profile");
             for _ in 0..args.num("--cases", 100) {
                 let c = gen_case(&mut r, p);
                 seen.insert(case_hash(&c));
@@ -862,4 +897,16 @@ fn main() {
             std::process::exit(2);
         }
     }
+}
+
+/// short stable name of an unexpected panic message (ids and numbers removed)
+fn panic_slug(main: &str) -> String {
+    let m = main.trim_start_matches("panic:").trim_start_matches("other:");
+    let words: Vec<String> = m
+        .split(|c: char| c == '_' || c == ':' || c == '(' || c == ')' || c == '`' || c == ',' || c == ';')
+        .filter(|w| !w.is_empty() && w.chars().all(|c| c.is_ascii_alphabetic() || c == '-'))
+        .take(4)
+        .map(|w| w.to_lowercase())
+        .collect();
+    if words.is_empty() { "unknown".into() } else { words.join("-") }
 }
